@@ -141,6 +141,20 @@ def check_output(case: Dict[str, Any]) -> Tuple[List[Tuple[str, str]], Dict[str,
                     if o is None:
                         continue
                     # the entry must be about that object (same-address public objects do not exist for private ones)
+                    if e['kind'] == 'classindex-item':
+                        # hiding the entry hides the subclasses nested below it: the marker is required when that loses nothing,
+                        # i.e. when every visible subclass (at any depth) is private too
+                        def below_private(c: Any, seen: Any = None) -> bool:
+                            seen = seen or set()
+                            for sc in getattr(c, 'subclasses', []):
+                                if id(sc) in seen or not sc.isVisible:
+                                    continue
+                                seen.add(id(sc))
+                                if sc.privacyClass is not model.PrivacyClass.PRIVATE or not below_private(sc, seen):
+                                    return False
+                            return True
+                        if not below_private(o):
+                            continue
                     info['private_entries'] += 1
                     if 'private' not in e['classes']:
                         out.append(('private-not-marked', 'on %s: %s entry for private %s has classes %s' % (name, e['kind'], o.fullName(), e['classes'])))
